@@ -39,7 +39,8 @@ PROBES = ["render_slower_than_frame_duration", "region_ends_on_bottom_row",
           "padded_width_equals_terminal_width", "relative_padding_resolved", "forced_scroll",
           "size_rejected", "not_a_tty", "empty_fill", "zero_frame_indefinite",
           "old_api", "old_api_animation", "tall_still_scrolls",
-          "ctrl_c_during_inter_frame_wait", "infinite_animation_ended_by_ctrl_c"]
+          "ctrl_c_during_inter_frame_wait", "infinite_animation_ended_by_ctrl_c",
+          "ctrl_c_as_next_frame_write_begins"]
 COMPONENTS = {
     "real": ["Renderable.draw/_animate_/_init_render_", "RenderIterator", "padding.*",
              "BaseImage.draw/_display_animated/_renderer/_format_render", "ImageIterator",
@@ -94,12 +95,18 @@ def run(ch, ctx, fault=None):
     # (or simply longer than the user cares to watch) returns only because of Ctrl-C during
     # one of its inter-frame waits - the picture then is the frame that was on display
     ctrl_c_at = None
+    ctrl_c_how = ["sleep"]
     if sc.animation and not sc.expect_error and len(seq) >= 1 and ch.bool("ctrl_c", 0.25):
         if sc.kind == "anim" and ch.bool("forever", 0.5):
             sc.loops = -1
             seq = seq * 4
             ctx.probe("infinite_animation_ended_by_ctrl_c")
         ctrl_c_at = ch.int("ctrl_c_at", 0, min(len(seq) - 1, 9))
+        # ... or just as the write of the next frame begins, before a byte of it went out: the
+        # screen is in the very same state
+        if ctrl_c_at < len(seq) - 1 and ch.bool("at_write_start", 0.35):
+            ctrl_c_how[0] = "write_start"
+            ctx.probe("ctrl_c_as_next_frame_write_begins")
         seq = seq[:ctrl_c_at + 1]
         ctx.op("Ctrl-C during the wait after frame #%d (loops=%d)" % (ctrl_c_at, sc.loops))
         ctx.key("ctrl_c", ctrl_c_at, sc.loops)
@@ -136,6 +143,11 @@ def run(ch, ctx, fault=None):
                               "animate", "frame_not_drawn_over_same_cells")
         dw.check_outside(vt, rows, s_anim, (top, 0, top + H, W), inf, "animate")
         if j == ctrl_c_at:
+            if ctrl_c_how[0] == "write_start":
+                k.fault = {"kind": "out.write", "k": k.counts.get("out.write", 0) + 1,
+                           "when": "before", "exc": "KeyboardInterrupt"}
+                k.fault_done = False
+                return
             ctx.probe("ctrl_c_during_inter_frame_wait")
             raise KeyboardInterrupt
 
